@@ -213,6 +213,9 @@ def oracle(chk, lines, outs, focus=None):
         if out.startswith("err ") and not (len(f) > 4 and f[4].startswith("#")):
             bad.append((i, "%s raised %s" % (op, out)))
             continue
+        if "other:" in out:
+            bad.append((i, "%s returned an object that is not a registered value / an adapter built by a registered factory: %s" % (op, out[:120])))
+            continue
         if op in ("lookup", "lookup1", "qadapter") and f[4].startswith("#"):
             chk.count("nonstring_names")
             if out != "err ValueError":
@@ -547,8 +550,20 @@ class Gen:
             elif k == "rbases":
                 down = rdown(r)
                 cand = [j for j in range(nr) if j not in down]
+                cur = list(flat.regbases[r])
                 for _ in range(8):
-                    bs = rnd.sample(cand, min(len(cand), rnd.choice([0, 1, 1, 2])))
+                    bs = rnd.sample(cand, min(len(cand), rnd.choice([0, 1, 1, 2, 2, 3])))
+                    c = rnd.random()
+                    if len(cur) >= 2 and c < 0.3:
+                        bs = cur[:]                     # the same bases in another order
+                        while bs == cur:
+                            rnd.shuffle(bs)
+                    elif cur and c < 0.4:
+                        extra = [j for j in cand if j not in cur]
+                        bs = cur + ([rnd.choice(extra)] if extra else [])
+                    elif len(cur) >= 2 and c < 0.5:
+                        bs = cur[:]
+                        bs.pop(rnd.randrange(len(bs)))
                     rb = dict(flat.regbases)
                     rb[r] = bs
                     if all(c03.lin(rb, j) is not None for j in down):
@@ -630,12 +645,28 @@ def still_fails(script, mode, kind):
         return False
 
 
+# minimised past failures, executed first on every run (both flavours where the script says so)
+CORPUS = {
+    "C06": [
+        # verifying flavour: an ancestor is re-based, then the registry itself is mutated (its own change re-snapshots the
+        # generations) -- `ro` must still follow the current chain (second fix: commit 462a8cb)
+        ["reset|1", "iface|1|", "newreg|0|", "newreg|1|", "newreg|2|1 0", "newreg|3|2", "reg|1||1||7 1", "lookup|3||1|", "ro|3",
+         "rbases|2|0", "sub|3||1|5 1", "ro|3", "lookup|3||1|", "lookupAll|3||1", "subs|3||1"],
+        # both flavours: plain stale chain after an ancestor was re-based (first fix: dbf66b8)
+        ["reset|0", "iface|1|", "newreg|0|", "newreg|1|", "newreg|2|0", "newreg|3|2", "reg|1||1||7 1", "lookup|3||1|", "rbases|2|1",
+         "ro|3", "lookup|3||1|"],
+        ["reset|1", "iface|1|", "newreg|0|", "newreg|1|", "newreg|2|0", "newreg|3|2", "reg|1||1||7 1", "lookup|3||1|", "rbases|2|1",
+         "ro|3", "lookup|3||1|"],
+    ],
+}
+
+
 def run_property(prop, tier, theorems, profile, nscripts, nontrivial_rule, nontrivial_counter, theorem_hint, stated_not_proved=()):
     chk = core.Check(prop, tier)
     chk.obligations(theorems, stated_not_proved)
     rnd = core.rng(prop)
     gen = Gen(rnd, tier, profile)
-    scripts = [gen.script(i % 2) for i in range(nscripts[tier])]
+    scripts = [list(c) for c in CORPUS.get(prop, [])] + [gen.script(i % 2) for i in range(nscripts[tier])]
     lines = [l for s in scripts for l in s]
     impl, model, divs = runner.correspond(chk, "registry", lines, label="registry")
     fails = []
@@ -670,7 +701,7 @@ def run_property(prop, tier, theorems, profile, nscripts, nontrivial_rule, nontr
     if nt == 0 and not fails and not divs:
         chk.notes.append("generator sanity: counter %s is zero" % nontrivial_counter)
         raise core.Infra("generator produced no non-trivial case (%s == 0)" % nontrivial_counter)
-    chk.samples.append(scripts[0][:25])
+    chk.samples.append(scripts[len(CORPUS.get(prop, []))][:25])
     distinct = len({hash("\n".join(s)) for s in scripts})
     return chk.finish(len(lines), min(nt, max(2, nt)) if nt else distinct, nontrivial_rule)
 
